@@ -146,13 +146,19 @@ func qname(label, tld string, spell int) string {
 	case "no-question":
 		name = ""
 	case "none":
-		switch spell % 3 {
+		switch spell % 5 {
 		case 0:
 			name = label + "."
 		case 1:
 			name = label + "myco."
-		default:
+		case 2:
 			name = label + ".myco" // not fully qualified: only reachable by a direct handler call
+		case 3:
+			// ONE label that contains a dot ("<label>.myco" as a single label under the root): in presentation format the
+			// dot is escaped, so the text ends in ".myco." although the name is not under .myco
+			name = label + "\\.myco."
+		default:
+			name = label + "\\046myco." // the same label with the decimal escape
 		}
 	}
 	switch (spell / 3) % 3 {
